@@ -346,6 +346,8 @@ def cases_of(shard, tier):
 
 # ---------------------------------------------------------------------------------------------- judging
 ROW_SELECTING = ("filter", "ifilter", "loc", "loc1", "loclist", "dropna", "head")
+CONCATS = ("concat0", "concat1", "concat0i", "merge", "join")
+FAMILY = {"projection-after-concat-or-merge": "project", "row-selection-after-set_index": "select"}
 PROJECTING = ("col", "cols", "toframe", "add2", "index", "idxser", "idxmap")
 
 
@@ -358,11 +360,13 @@ def context(op, prev, src, cls):
                 return "known-numeric-divisions-upsample"  # same defect as C44's finding of that name
             if op[0] == "setidx" and op[2] in ("n2", "n3"):
                 return "explicit-npartitions"
+        if prev is not None and prev[0] in CONCATS and (op[0] in PROJECTING or op[0] == "setidx"):
+            # the projection (set_index projects its key column) removes the aligned operand and the partitioning reverts to the
+            # first frame's, while the report still describes the aligned layout
+            return "projection-after-concat-or-merge"
         if cls == "report-differs-from-optimized" and prev is not None:
             if op[0] in ROW_SELECTING and prev[0] in ("setidx", "resetset"):
                 return "row-selection-after-set_index"  # the filter is pushed below set_index, divisions are recomputed on other data
-            if op[0] in PROJECTING and prev[0] in ("concat0", "concat1", "concat0i", "merge", "join"):
-                return "projection-after-concat-or-merge"  # the projection removes the aligned operand, the partitioning reverts
             if op[0] == "setidx" and op[2] in ("auto", "n1", "n2", "n3"):
                 return "quantile-divisions-on-derived-frame"  # divisions are computed twice on differently simplified expressions
     except Exception:  # noqa: BLE001
@@ -451,7 +455,7 @@ def run_case(case, ctx):
             opk = ops[j - 1][0] if j else origin[0]
             ctxpart = context(ops[j - 1], ops[j - 2] if j >= 2 else None, exprs[j - 1], inf[0]) if j else "origin"
             ctx.case(case, nontrivial=True, outcome=("bad", opk, inf[0]))
-            ctx.violation(f"{opk}:{inf[0]}:{ctxpart}", case, f"{describe(kind, seq, origin, ops[:j], ctx.seed)}: {inf[1]}")
+            ctx.violation(f"{FAMILY.get(ctxpart, opk)}:{inf[0]}:{ctxpart}", case, f"{describe(kind, seq, origin, ops[:j], ctx.seed)}: {inf[1]}")
             return
     ctx.case(case, nontrivial=False, outcome=("compute-exc", type(info).__name__))
     ctx.count("compute_raises")
